@@ -170,7 +170,7 @@ def _r3(ctx):
     # definitions of the carried variable
     loop = None
     for n in Resolver.walk_own(fi.node):
-        if isinstance(n, ast.For) and any(isinstance(x, ast.AugAssign) for x in ast.walk(n)) and \
+        if isinstance(n, ast.For) and any(b.accumulation(x) for x in ast.walk(n) if isinstance(x, ast.stmt)) and \
                 b.binder_of(n)[0] == v:
             loop = n
     if loop is None:
@@ -185,7 +185,7 @@ def _r3(ctx):
         ok_init = (cv is not None and cv < 0) or t0 == tm.Lit(None)
     ctx.check(ok_init, fi, "the carried label starts as a value that is no valid label (so the first run is counted)", role="carried:init",
               expected="-1 / None", found=unparse(outloop[0].ast) if outloop else "no initial definition")
-    aug = [n for n in cfg.nodes if n.kind == "stmt" and isinstance(n.ast, ast.AugAssign) and loop in cfg.enclosing_loops(n)]
+    aug = [n for n in cfg.nodes if n.kind == "stmt" and b.accumulation(n.ast) and loop in cfg.enclosing_loops(n)]
     ok_upd = len(inloop) == 1 and len(aug) == 1
     if ok_upd:
         d = inloop[0]
